@@ -86,6 +86,13 @@ pub fn run(ctx: &Ctx, rep: &mut Reporter) -> Json {
         let mut rng = ctx_rng(ctx, case_idx);
         let (kind, text) = if ctx.tier == Tier::Thorough && case_idx == 0 && ctx.variant == "native" && ctx.shard < 2 {
             ("corpus:mapping-r8.txt".to_string(), load_corpus(6))
+        } else if case_idx == 1 && ctx.variant == "native" {
+            // a large mapping: lazily built internal state takes long enough to build that
+            // a second thread arrives while the first is still building it
+            let d = load_corpus(5 + (ctx.shard as usize % 2));
+            let w = crate::props::c02::corpus_window(&d, &mut rng, 12_000);
+            rep.count("large_mappings", 1);
+            ("corpus-window-large".to_string(), w)
         } else {
             gen_input(ctx, case_idx * 4 + (case_idx % 3), &mut rng)
         };
@@ -138,16 +145,21 @@ fn one_mapping(text: &[u8], rng: &mut Rng, rep: &mut Reporter, case_idx: u64, ct
     for _ in 0..(batch.len() / 4) {
         batch.push(rng.pick(&hot).clone());
     }
-    let mapper = ForceShare(cur::mapper(text, true));
     let bytes = cur::write_cache(text).expect("write to Vec");
     let buf = AlignedBuf::from_bytes(&bytes);
+    // sequential answers first, from SEPARATE instances: the shared handles below stay
+    // cold (never queried) until the threads are released, so that lazily initialised
+    // state inside a handle is first touched concurrently
+    let (exp_m, exp_c): (Vec<String>, Vec<String>) = {
+        let ref_mapper = cur::mapper(text, true);
+        let Ok(ref_cache) = cur::parse_cache(buf.as_slice()) else { return 0 };
+        (batch.iter().map(|q| answer(&ref_mapper, q)).collect(), batch.iter().map(|q| answer(&ref_cache, q)).collect())
+    };
+    let mapper = ForceShare(cur::mapper(text, true));
     let cache = match cur::parse_cache(buf.as_slice()) {
         Ok(c) => ForceShare(c),
         Err(_) => return 0,
     };
-    // sequential answers first
-    let exp_m: Vec<String> = batch.iter().map(|q| answer(&mapper.0, q)).collect();
-    let exp_c: Vec<String> = batch.iter().map(|q| answer(&cache.0, q)).collect();
     let nthreads = if ctx.variant == "miri" { 3 } else { *rng.pick(&[2usize, 4, 8, 16]) };
     let clock = AtomicU64::new(0);
     let barrier = Arc::new(Barrier::new(nthreads));
@@ -160,6 +172,10 @@ fn one_mapping(text: &[u8], rng: &mut Rng, rep: &mut Reporter, case_idx: u64, ct
             let mut r = Rng::new(rng.next_u64());
             r.shuffle(&mut idx);
             idx.truncate((n * 3 / 4).max(1));
+            // all threads open with by-params / by-line queries of the same few keys
+            let mut first: Vec<usize> = (0..n).filter(|i| matches!(batch[*i], Q::Params(..))).take(3).collect();
+            first.extend(idx.iter().copied());
+            let idx = first;
             (idx, r.next_u64())
         })
         .collect();
